@@ -53,7 +53,18 @@ def showAnswer (s : List Char) : String :=
   | .panic => "panic"
   | .fuel => "model-out-of-fuel"
 
-def handle (line : String) : String :=
+/-- A request may carry the history of its thread: `@after <n> <texts> @ <request>` says that `<n>` parses failed on the
+same thread before.  `Expression::parse` is modelled (and specified) as a function of its text alone, so the history is
+dropped: any influence of it shows as a mismatch (A) and as a wrong value / error (B). -/
+def stripHistory (line : String) : String :=
+  if line.startsWith "@after " then
+    match line.splitOn " @ " with
+    | _ :: rest@(_ :: _) => " @ ".intercalate rest
+    | _ => line
+  else line
+
+def handle (line0 : String) : String :=
+  let line := stripHistory line0
   match words line with
   | _kind :: txt :: _ =>
     match decodeText txt with
@@ -229,7 +240,8 @@ def specX (text : List Char) (ans : String) : String :=
 /-- (B): the property evaluated on the implementation's answer. -/
 def specCheck (line : String) : String :=
   match line.splitOn "\t" with
-  | [req, ans0] =>
+  | [req0, ans0] =>
+    let req := stripHistory req0
     let ans := ans0.trimAscii.toString
     match (req.splitOn " | ") with
     | head :: extra =>
